@@ -32,7 +32,7 @@ ASSUMPTIONS = [
     "factorization: values of non-summed variables are the event's values; subscripts are literal",
 ]
 BUDGET = {
-    "quick": dict(examples=300, shards=16, seconds=200),
+    "quick": dict(examples=350, shards=16, seconds=200),
     "thorough": dict(examples=5000, shards=16, seconds=2400),
 }
 OPS = ["minimize", "simplify", "ancestors", "components", "factor_form", "factorization"]
